@@ -91,7 +91,7 @@ def proof_status(pid):
                 pass
     bad_axioms = [a for a in axioms if a not in ALLOWED_AXIOMS]
     ok = (r.returncode == 0 and not structural and not bad_axioms and
-          closed + nblocks >= len(theorems))
+          closed + nblocks >= len(theorems) and (theorems or examples))
     return dict(exists=True, ok=ok, compiled=(r.returncode == 0), theorems=theorems, examples=examples, closed=closed,
                 axioms=sorted(set(axioms)), axiom_blocks=nblocks, bad_axioms=bad_axioms, structural=structural, wall=time.time() - t0,
                 log=out[-4000:] if r.returncode != 0 else '')
@@ -149,7 +149,8 @@ class Check:
         wall = time.time() - self.t0
         self.cov['distinct_nontrivial'] = len(self.distinct)
         cov = dict(self.cov)
-        nthm = len(proof.get('theorems', []))
+        refuted = [e for e in proof.get('examples', []) if e.endswith('_refuted')]
+        nthm = len(proof.get('theorems', [])) + len(refuted)   # a machine-checked refutation is an obligation too
         cov.update(obligations=max(nthm, 1), discharged=(nthm if proof.get('ok') else min(proof.get('closed', 0), max(nthm - 1, 0))),
                    checker_cmd="cd /verif && ./build.sh && cd coq && coqc -Q . Droop Props/%s.v   # thorough: coqchk -o -Q . Droop Droop.Props.%s" % (self.pid, self.pid),
                    trusted_base=TRUSTED_BASE, theorems=proof.get('theorems', []), examples=proof.get('examples', []),
